@@ -129,6 +129,37 @@ def run(tier):
             suite.identity('tensor.grad[%s]' % nm, arr(total(dd.grad(x))), diff_arr(dd.eval(), x), extra=(x, y),
                            functions=['tensor.Box.grad', 'tensor.Diagram.grad'],
                            what='gradient of a diagram with a daggered symbolic box = derivative of its evaluation')
+    # the same parametrised box several times (equal boxes at different positions): the product rule differentiates each
+    # OCCURRENCE once
+    with suite.guard('grad.equal_boxes', ['tensor.Diagram.grad']):
+        fe = tensor.Box('f', Dim(2), Dim(2), [x, 1, y, x * y])
+        for nm, dd in (('f >> f', fe >> fe), ('f @ f', fe @ fe), ('f >> f >> f', fe >> fe >> fe),
+                       ('f @ f >> f @ f', fe @ fe >> fe @ fe)):
+            suite.identity('tensor.grad.equal_boxes[%s]' % nm, arr(total(dd.grad(x))), diff_arr(dd.eval(), x), extra=(x, y),
+                           functions=['tensor.Diagram.grad'])
+        for nm, cc in (('Rx(x) @ Rx(x) >> CX', gates.Ket(0, 0) >> Rx(x) @ Rx(x) >> gates.CX),
+                       ('Rx(x) >> Rz(y) >> Rx(x)', gates.Ket(0) >> Rx(x) >> Rz(y) >> Rx(x))):
+            suite.identity('circuit.grad.equal_boxes[%s].pure' % nm, arr(total(cc.grad(x, mixed=False), mixed=False)),
+                           diff_arr(cc.eval(mixed=False), x), angle=[x, y], functions=['tensor.Diagram.grad', 'quantum.gates.Rotation.grad'])
+            suite.identity('circuit.grad.equal_boxes[%s].mixed' % nm, arr(total(cc.grad(x), mixed=True)),
+                           diff_arr(cc.eval(mixed=True), x), angle=[x, y], functions=['tensor.Diagram.grad', 'quantum.gates.Rotation.grad'])
+    # square-root scalars: the chain rule through the root (numeric at three points: the root is outside the polynomial form)
+    with suite.guard('Sqrt.grad', ['quantum.gates.Scalar.grad']):
+        from discopy.quantum.gates import sqrt as _sqrt
+        for nm, sc_, cc in (('sqrt(x**2 + y)', _sqrt(x ** 2 + y), _sqrt(x ** 2 + y) @ gates.Ket(0) >> Ry(y)),
+                            ('sqrt(x)', _sqrt(x), _sqrt(x) @ gates.Ket(0) >> Rx(x))):
+            ok = True
+            for vx, vy in ((0.7, 0.3), (1.9, 0.45), (0.2, 1.1)):
+                sub = [(x, vx), (y, vy)]
+                got = numpy.array(cc.grad(x, mixed=False).subs(sub).eval(mixed=False).array, dtype=complex).flatten()
+                amp = [sympy.sympify(v) for v in numpy.array(cc.eval(mixed=False).array, dtype=object).flatten()]
+                want = numpy.array([complex(sympy.N(sympy.diff(a_, x).subs(sub))) for a_ in amp])
+                ok = ok and got.shape == want.shape and numpy.allclose(got, want, atol=1e-8)
+            suite.fact('Sqrt.grad[%s].pure' % nm, bool(ok), functions=['quantum.gates.Scalar.grad'],
+                       what='pure gradient of a circuit with the scalar %s = derivative of the amplitudes (numeric at 3 points)' % nm)
+        zs = _sqrt(y).grad(x)
+        suite.fact('Sqrt.grad.other_symbol', hasattr(zs, 'terms') and len(zs.terms) == 0, functions=['quantum.gates.Scalar.grad'],
+                   what='a square root that does not depend on the symbol has the empty sum as gradient')
     # formal sums of circuits: pure gradients (mixed=False reaches every term) and second derivatives
     with suite.guard('circuit.Sum.grad', ['quantum.circuit.Sum.grad']):
         cs = (gates.Ket(0) >> Rx(x) >> Rz(x * y)) + (gates.Ket(0) >> Ry(x ** 2 + y))
